@@ -94,6 +94,9 @@ type Response struct {
 	Body        string            `json:"body,omitempty"`
 	Writes      int               `json:"writes,omitempty"`
 	WriteFailed bool              `json:"write_failed,omitempty"`
+	// WriteBeforeStatus: the body was written before any WriteHeader (an
+	// implicit 200 went out first)
+	WriteBeforeStatus bool `json:"write_before_status,omitempty"`
 	SendID      string            `json:"send_id,omitempty"`
 	FirstEvent  int               `json:"first_event"`
 	LastEvent   int               `json:"last_event"`
@@ -235,6 +238,7 @@ func (w *World) Do(actor pub.FederatingActor, req Request, reqID string) (resp R
 		resp.Body = string(rw.Body)
 		resp.Writes = rw.Writes
 		resp.WriteFailed = rw.WriteFailed
+		resp.WriteBeforeStatus = rw.WriteBeforeH
 		resp.Header = map[string]string{}
 		src := rw.HeaderAtWH
 		if src == nil {
